@@ -78,6 +78,9 @@ def shards(tier: str, seed: int):
         if "/nonce/" in b.bid:
             out.append(["forge", b.bid])
             out.append(["forge-hist", b.bid])
+    for h_ in (("SHA1",) if tier == "quick" else ("SHA1", "SHA256", "SHA384", "SHA512")):
+        for env_ in (True, False):
+            out.append(["dhwindow", h_, env_])
     sizes = [65536, 2**20] if tier == "quick" else [65536, 2**20, 2**21, 3 * 2**20, 2**24]
     for lay in ("env", "trail"):
         for api in ("sync", "async"):
@@ -243,6 +246,42 @@ def gkdi_B() -> int:
 def run_shard(shard, tier, seed, acc) -> None:
     worker_init()
     _hist_cache["cache"] = None
+    if shard[0] == "dhwindow":
+        # public-key (DH) blob whose nested FFCDHKey announces a key length the data cannot back: if the library sliced the fields anyway the
+        # public value would come out empty (= 0), the shared secret 0 and the KEK a public constant - forged accordingly, must be rejected
+        import struct as _struct
+
+        from cryptography.hazmat.primitives import keywrap
+        from cryptography.hazmat.primitives.ciphers.aead import AESGCM
+
+        from ref import cms, gkdi
+
+        base = bm.base_blob(seed, shard[1], "DH", shard[2])
+        st, v = unprotect(base, base.blob)
+        if st != "ok" or bytes(v) != base.plaintext:
+            acc.violate("dhwindow.base-does-not-decrypt", ["dhwindow", shard[1], shard[2]], {"outcome": st})
+            acc.ev()
+            return
+        b = cms.decode(base.blob)
+        kid = gkdi.unpack_keyid(b.keyid)
+        ki = bytes(kid.key_info)
+        body = len(ki) - 8
+        n = 0
+        for kl in sorted({body // 2, body // 2 + 1, body - 1, body, body + 1, 2**16, (body // 3) + 1, (body // 3) * 2}):
+            for zlen in sorted({kl, body // 3, 1}):
+                kid2 = kid._replace(key_info=ki[:4] + _struct.pack("<I", kl) + ki[8:])
+                kek = gkdi.kek_from_shared(base.rk.hash_name, bytes(zlen), "SHA256")
+                cek = b"\x3c" * 32
+                enc = AESGCM(cek).encrypt(cms.gcm_nonce(b), b"FORGED-DH", None)
+                label = ["dhwindow", kl, zlen]
+                data = cms.encode(b._replace(keyid=gkdi.pack_keyid(kid2), enc_cek=keywrap.aes_key_wrap(kek, cek), enc_content=enc))
+                oc = judge(acc, base, label, data, [], "async" if n % 2 else "sync")
+                acc.outcome("dhwindow:" + oc.split(":")[0])
+                n += 1
+        acc.ev(n)
+        acc.nt_counted(n)
+        acc.sample({"DH key_info": len(ki), "announced key lengths": "around (len-8)/3, (len-8)/2, len-8, 65536"})
+        return
     if shard[0] == "splice":
         # blobs produced by the library itself in ONE process (same SID, different plaintexts): parts of one transplanted into another
         import dpapi_ng
@@ -409,6 +448,15 @@ def replay(case, seed, acc) -> None:
     _, bid, label = case[:3]
     api = case[3] if len(case) > 3 else "sync"
     acc.ev()
+    if label[0] == "dhwindow":
+        parts = bid.split("/")
+        run_shard(["dhwindow", parts[0], parts[2] == "env"], "quick", seed, acc)
+        for kk in list(acc.violations):
+            acc.violations[kk] = [e for e in acc.violations[kk] if e["case"][2] == list(label)]
+            if not acc.violations[kk]:
+                del acc.violations[kk]
+        acc.violation_count = sum(len(v) for v in acc.violations.values())
+        return
     if bid.startswith("big"):
         base = big_base(seed, bid.split("/")[1], 65536 if bid.startswith("big64k/") else int(bid.split("/")[0][3:]))
         judge(acc, base, label, bm.apply_simple(base.blob, label), [], api)
